@@ -1,2 +1,1171 @@
+(* OrderFacts.v -- proofs about the rule-order model Order.v (property C07) *)
 From CssV Require Import Base Order.
 From CssV.Gen Require Import Kinds.
+From Coq Require Import Btauto.
+
+(* ------------------------------------------------------------------ basics *)
+Lemma kind_beq_eq a b : kind_beq a b = true <-> a = b.
+Proof. destruct a, b; simpl; split; intros H; try reflexivity; try discriminate. Qed.
+
+Lemma kind_beq_refl a : kind_beq a a = true.
+Proof. destruct a; reflexivity. Qed.
+
+Lemma firstn_length_app {A} (a b : list A) : firstn (length a) (a ++ b) = a.
+Proof. induction a as [|x a IH]; simpl; [destruct b; reflexivity | now rewrite IH]. Qed.
+
+Lemma skipn_length_app {A} (a b : list A) : skipn (length a) (a ++ b) = b.
+Proof. induction a as [|x a IH]; simpl; auto. Qed.
+
+Lemma insert_at_split {A} (a b : list A) x : insert_at (length a) x (a ++ b) = a ++ x :: b.
+Proof. unfold insert_at. now rewrite firstn_length_app, skipn_length_app. Qed.
+
+Lemma insert_at_firstn_skipn {A} i x (l : list A) : insert_at i x l = firstn i l ++ x :: skipn i l.
+Proof. reflexivity. Qed.
+
+Lemma forallb_impl {A} (p q : A -> bool) l :
+  (forall x, p x = true -> q x = true) -> forallb p l = true -> forallb q l = true.
+Proof.
+  intros Hpq. induction l as [|x l IH]; simpl; intros H; [reflexivity|].
+  apply andb_true_iff in H as [H1 H2]. rewrite (Hpq _ H1), (IH H2). reflexivity.
+Qed.
+
+Lemma existsb_false_forallb {A} (p : A -> bool) l : existsb p l = false -> forallb (fun x => negb (p x)) l = true.
+Proof.
+  induction l as [|x l IH]; simpl; intros H; [reflexivity|]. apply orb_false_iff in H as [H1 H2].
+  rewrite H1, (IH H2). reflexivity.
+Qed.
+
+Lemma anyk_false T l (P : kind -> bool) :
+  anyk T l = false -> (forall x, kin x T = false -> P x = true) -> forallb P l = true.
+Proof.
+  intros H HP. apply existsb_false_forallb in H. revert H. apply forallb_impl.
+  intros x Hx. apply HP. now apply negb_true_iff in Hx.
+Qed.
+
+(* ------------------------------------------------------------------ sortedness *)
+Definition le1 (l : nat) (k : kind) : bool := match level k with Some x => Nat.leb x l | None => true end.
+Definition ge1 (l : nat) (k : kind) : bool := match level k with Some x => Nat.leb l x | None => true end.
+
+Lemma ge_all_app l a b : ge_all l (a ++ b) = ge_all l a && ge_all l b.
+Proof. apply forallb_app. Qed.
+Lemma le_all_app l a b : le_all l (a ++ b) = le_all l a && le_all l b.
+Proof. apply forallb_app. Qed.
+
+Lemma le_all_mono l m a : l <= m -> le_all l a = true -> le_all m a = true.
+Proof.
+  intros Hlm. apply forallb_impl. intros x. destruct (level x); auto.
+  intros H. apply Nat.leb_le in H. apply Nat.leb_le. lia.
+Qed.
+Lemma ge_all_mono l m a : m <= l -> ge_all l a = true -> ge_all m a = true.
+Proof.
+  intros Hlm. apply forallb_impl. intros x. destruct (level x); auto.
+  intros H. apply Nat.leb_le in H. apply Nat.leb_le. lia.
+Qed.
+
+Lemma sorted_insert a b k :
+  sorted (a ++ b) = true ->
+  match level k with Some l => le_all l a && ge_all l b | None => true end = true ->
+  sorted (a ++ k :: b) = true.
+Proof.
+  destruct (level k) as [l|] eqn:El.
+  - induction a as [|x a IH]; simpl; intros Hs Hk.
+    + now rewrite El, Hs, Hk.
+    + apply andb_true_iff in Hs as [Hx Hs]. apply andb_true_iff in Hk as [Hk1 Hk2].
+      apply andb_true_iff in Hk1 as [Hk0 Hk1].
+      rewrite IH; [| assumption | now rewrite Hk1, Hk2]. rewrite andb_true_r.
+      revert Hx Hk0. destruct (level x) as [lx|]; auto. intros Hx Hk0.
+      rewrite ge_all_app in *. simpl. rewrite El.
+      apply andb_true_iff in Hx as [Hx1 Hx2]. now rewrite Hx1, Hx2, Hk0.
+  - induction a as [|x a IH]; simpl; intros Hs _.
+    + now rewrite El, Hs.
+    + apply andb_true_iff in Hs as [Hx Hs]. rewrite IH by auto. rewrite andb_true_r.
+      revert Hx. destruct (level x) as [lx|]; auto. intros Hx.
+      rewrite ge_all_app in *. simpl. rewrite El.
+      apply andb_true_iff in Hx as [Hx1 Hx2]. now rewrite Hx1, Hx2.
+Qed.
+
+Lemma sorted_remove a x b : sorted (a ++ x :: b) = true -> sorted (a ++ b) = true.
+Proof.
+  induction a as [|y a IH]; simpl; intros Hs.
+  - now apply andb_true_iff in Hs as [_ Hs].
+  - apply andb_true_iff in Hs as [Hy Hs]. rewrite (IH Hs), andb_true_r.
+    destruct (level y); auto. rewrite ge_all_app in *. simpl in Hy.
+    apply andb_true_iff in Hy as [Hy1 Hy2]. apply andb_true_iff in Hy2 as [_ Hy2]. now rewrite Hy1, Hy2.
+Qed.
+
+(* around an element of level l in a sorted list *)
+Lemma sorted_around a x b l :
+  sorted (a ++ x :: b) = true -> level x = Some l -> le_all l a = true /\ ge_all l b = true.
+Proof.
+  induction a as [|y a IH]; simpl; intros Hs Hl.
+  - rewrite Hl in Hs. apply andb_true_iff in Hs as [Hs _]. auto.
+  - apply andb_true_iff in Hs as [Hy Hs]. destruct (IH Hs Hl) as [H1 H2]. split; auto.
+    rewrite H1, andb_true_r. destruct (level y); auto.
+    rewrite ge_all_app in Hy. simpl in Hy. rewrite Hl in Hy.
+    apply andb_true_iff in Hy as [_ Hy]. now apply andb_true_iff in Hy as [Hy _].
+Qed.
+
+(* ------------------------------------------------------------------ @charset only first *)
+Lemma nocs_app a b : nocs (a ++ b) = nocs a && nocs b.
+Proof. apply forallb_app. Qed.
+
+Lemma nocs_ge1 l : nocs l = true -> ge_all 1 l = true.
+Proof. apply forallb_impl. intros []; simpl; auto; discriminate. Qed.
+
+Lemma valid_nocs_tail x ks : valid_kinds (x :: ks) = true -> nocs ks = true.
+Proof. unfold valid_kinds. simpl. intros H. now apply andb_true_iff in H as [H _]. Qed.
+
+Lemma valid_nocs_all ks : valid_kinds ks = true -> headis CHARSET_RULE ks = false -> nocs ks = true.
+Proof.
+  destruct ks as [|x ks]; auto. intros H Hh. simpl in *. rewrite (valid_nocs_tail _ _ H), Hh. reflexivity.
+Qed.
+
+(* the generic insertion lemma, on a split ks = a ++ b *)
+Lemma valid_insert_split a b k :
+  valid_kinds (a ++ b) = true ->
+  match level k with Some l => le_all l a && ge_all l b | None => true end = true ->
+  (if kind_beq k CHARSET_RULE
+   then match a with [] => negb (headis CHARSET_RULE b) | _ => false end
+   else match a with [] => negb (headis CHARSET_RULE b) | _ => true end) = true ->
+  valid_kinds (a ++ k :: b) = true.
+Proof.
+  intros Hv Hk Hc. unfold valid_kinds in *. apply andb_true_iff in Hv as [Hn Hs].
+  rewrite (sorted_insert _ _ _ Hs Hk), andb_true_r.
+  destruct a as [|x a]; simpl in *.
+  - assert (Hb : negb (headis CHARSET_RULE b) = true) by (destruct (kind_beq k CHARSET_RULE); auto).
+    destruct b as [|y b]; auto. simpl in *. now rewrite Hb, Hn.
+  - destruct (kind_beq k CHARSET_RULE) eqn:E; [discriminate|].
+    rewrite nocs_app in *. simpl. apply andb_true_iff in Hn as [H1 H2]. now rewrite H1, E, H2.
+Qed.
+
+Lemma valid_remove_split a x b : valid_kinds (a ++ x :: b) = true -> valid_kinds (a ++ b) = true.
+Proof.
+  unfold valid_kinds. intros H. apply andb_true_iff in H as [Hn Hs].
+  rewrite (sorted_remove _ _ _ Hs), andb_true_r.
+  destruct a as [|y a]; simpl in *.
+  - destruct b; auto. simpl in *. now apply andb_true_iff in Hn as [_ Hn].
+  - rewrite nocs_app in *. simpl in Hn. apply andb_true_iff in Hn as [H1 H2].
+    apply andb_true_iff in H2 as [_ H2]. now rewrite H1, H2.
+Qed.
+
+Lemma skipn_cons_S {A} i : forall (l : list A) x b, skipn i l = x :: b -> skipn (S i) l = b.
+Proof.
+  induction i as [|i IH]; intros l x b H.
+  - simpl in H. subst l. reflexivity.
+  - destruct l as [|y l]; [discriminate|]. simpl in H. apply IH in H. exact H.
+Qed.
+
+Lemma remove_at_split {A} i (l : list A) :
+  i < length l -> exists a x b, l = a ++ x :: b /\ remove_at i l = a ++ b /\ length a = i.
+Proof.
+  intros Hi. exists (firstn i l). destruct (skipn i l) as [|x b] eqn:E.
+  - apply (f_equal (@length A)) in E. rewrite skipn_length in E. simpl in E. lia.
+  - exists x, b. split; [|split].
+    + rewrite <- E. symmetry. apply firstn_skipn.
+    + unfold remove_at. f_equal. eapply skipn_cons_S; eauto.
+    + apply firstn_length_le. lia.
+Qed.
+
+Lemma valid_remove_at i ks : valid_kinds ks = true -> valid_kinds (remove_at i ks) = true.
+Proof.
+  intros H. destruct (Nat.lt_ge_cases i (length ks)) as [Hi|Hi].
+  - destruct (remove_at_split i ks Hi) as (a & x & b & E1 & E2 & _). rewrite E2. rewrite E1 in H.
+    eapply valid_remove_split; eauto.
+  - unfold remove_at. rewrite firstn_all2 by lia. rewrite skipn_all2 by lia. now rewrite app_nil_r.
+Qed.
+
+(* ------------------------------------------------------------------ last_pos / first_pos *)
+Lemma last_pos_none p ks : last_pos p ks = None -> forallb (fun y => negb (p y)) ks = true.
+Proof.
+  induction ks as [|k r IH]; simpl; auto.
+  destruct (last_pos p r); [discriminate|]. destruct (p k); [discriminate|]. intros _. now rewrite IH.
+Qed.
+
+Lemma last_pos_some p ks j :
+  last_pos p ks = Some j ->
+  exists a x b, ks = a ++ x :: b /\ j = length (a ++ [x]) /\ p x = true /\ forallb (fun y => negb (p y)) b = true.
+Proof.
+  revert j. induction ks as [|k r IH]; simpl; [discriminate|]. intros j.
+  destruct (last_pos p r) as [j'|] eqn:E.
+  - intros Hj. inversion Hj; subst. destruct (IH j' eq_refl) as (a & x & b & E1 & E2 & E3 & E4).
+    exists (k :: a), x, b. subst. simpl. auto.
+  - destruct (p k) eqn:Ep; [|discriminate]. intros Hj. inversion Hj; subst.
+    exists [], k, r. simpl. repeat split; auto. now apply last_pos_none.
+Qed.
+
+Lemma first_pos_none p ks : first_pos p ks = None -> forallb (fun y => negb (p y)) ks = true.
+Proof.
+  induction ks as [|k r IH]; simpl; auto. destruct (p k); [discriminate|].
+  destruct (first_pos p r); [discriminate|]. intros _. now rewrite IH.
+Qed.
+
+Lemma first_pos_some p ks i :
+  first_pos p ks = Some i ->
+  exists a x b, ks = a ++ x :: b /\ i = length a /\ p x = true /\ forallb (fun y => negb (p y)) a = true.
+Proof.
+  revert i. induction ks as [|k r IH]; simpl; [discriminate|]. intros i.
+  destruct (p k) eqn:Ep.
+  - intros Hi. inversion Hi; subst. exists [], k, r. auto.
+  - destruct (first_pos p r) as [i'|]; [|discriminate]. intros Hi. inversion Hi; subst.
+    destruct (IH i' eq_refl) as (a & x & b & E1 & E2 & E3 & E4). exists (k :: a), x, b. subst. simpl.
+    rewrite Ep. auto.
+Qed.
+
+Lemma forallb_head {A} (p : A -> bool) x l : forallb p (x :: l) = true -> p x = true.
+Proof. simpl. intros H. now apply andb_true_iff in H as [H _]. Qed.
+
+(* ------------------------------------------------------------------ the ordered branches (@namespace, @variables) *)
+Section Ordered.
+  Variables (self : kind) (skip stop after before : list kind) (l : nat).
+  Hypothesis Hself : level self = Some l.
+  Hypothesis Hself_cs : kind_beq self CHARSET_RULE = false.
+  Hypothesis Hskip : forall x, kin x skip = true -> match level x with Some lx => Nat.leb lx l | None => false end = true.
+  Hypothesis Hskip_cs : kin CHARSET_RULE skip = true.
+  Hypothesis Hmid : forall x, kin x skip = false -> kin x stop = false -> le1 l x = true.
+  Hypothesis Hrest : forall x, kin x skip = false -> ge1 l x = true.
+  Hypothesis Hafter : forall x, kin x after = false -> ge1 l x = true /\ kind_beq x CHARSET_RULE = false.
+  Hypothesis Hbefore : forall x, kin x before = false -> le1 l x = true.
+
+  Lemma headis_cs_skip ks : forallb (fun y => negb (kin y skip)) ks = true -> headis CHARSET_RULE ks = false.
+  Proof.
+    destruct ks as [|x ks]; auto. intros H. apply forallb_head in H. simpl.
+    destruct (kind_beq x CHARSET_RULE) eqn:E; auto. apply kind_beq_eq in E. subst.
+    rewrite Hskip_cs in H. discriminate.
+  Qed.
+
+  Lemma search_valid ks :
+    valid_kinds ks = true ->
+    exists a b, ks = a ++ b /\ search skip stop ks = length a /\ valid_kinds (a ++ self :: b) = true.
+  Proof.
+    intros Hv. unfold search.
+    (* P = the part up to the last skip kind, R = the rest *)
+    assert (HPR : exists P R, ks = P ++ R /\
+                  match last_pos (fun k => kin k skip) ks with Some j => j | None => 0 end = length P /\
+                  le_all l P = true /\ forallb (fun y => negb (kin y skip)) R = true /\
+                  (P = [] -> headis CHARSET_RULE ks = false)).
+    { destruct (last_pos (fun k => kin k skip) ks) as [j|] eqn:E.
+      - destruct (last_pos_some _ _ _ E) as (a & x & b & E1 & E2 & E3 & E4).
+        exists (a ++ [x]), b. subst ks. rewrite <- app_assoc. simpl. repeat split; auto.
+        + unfold valid_kinds in Hv. apply andb_true_iff in Hv as [_ Hs].
+          specialize (Hskip _ E3). destruct (level x) as [lx|] eqn:Elx; [|discriminate].
+          destruct (sorted_around _ _ _ _ Hs Elx) as [H1 _].
+          rewrite le_all_app. apply Nat.leb_le in Hskip.
+          rewrite (le_all_mono lx l a Hskip H1). simpl. rewrite Elx. apply Nat.leb_le in Hskip. now rewrite Hskip.
+        + intros HP. destruct a; discriminate.
+      - exists [], ks. simpl. repeat split; auto.
+        + now apply last_pos_none.
+        + intros _. apply headis_cs_skip. now apply last_pos_none. }
+    destruct HPR as (P & R & E1 & E2 & HP & HR & Hhd). rewrite E2.
+    replace (skipn (length P) ks) with R by (subst ks; now rewrite skipn_length_app).
+    assert (HgeR : ge_all l R = true).
+    { revert HR. apply forallb_impl. intros x Hx. apply negb_true_iff in Hx. apply (Hrest _ Hx). }
+    assert (Hmidall : forall c, forallb (fun y => negb (kin y skip)) c = true ->
+                                forallb (fun y => negb (kin y stop)) c = true -> le_all l c = true).
+    { induction c as [|z c IH]; auto. simpl. intros A B.
+      apply andb_true_iff in A as [A1 A2]. apply andb_true_iff in B as [B1 B2].
+      apply negb_true_iff in A1. apply negb_true_iff in B1.
+      pose proof (Hmid _ A1 B1) as Hm. unfold le1 in Hm. rewrite Hm. simpl. now apply IH. }
+    destruct (first_pos (fun k => kin k stop) R) as [i|] eqn:E.
+    - destruct (first_pos_some _ _ _ E) as (c & y & d & F1 & F2 & F3 & F4).
+      exists (P ++ c), (y :: d). subst R i.
+      assert (Eks : ks = (P ++ c) ++ y :: d) by (rewrite E1; now rewrite <- app_assoc).
+      split; [exact Eks|]. split; [now rewrite app_length|].
+      rewrite forallb_app in HR. apply andb_true_iff in HR as [HR1 HR2].
+      rewrite ge_all_app in HgeR. apply andb_true_iff in HgeR as [_ HgeR].
+      apply valid_insert_split.
+      + now rewrite <- Eks.
+      + rewrite Hself. rewrite le_all_app, HP, HgeR, (Hmidall c HR1 F4). reflexivity.
+      + rewrite Hself_cs. destruct (P ++ c) as [|z w] eqn:Epc; auto.
+        apply app_eq_nil in Epc as [-> ->]. simpl in *. specialize (Hhd eq_refl).
+        rewrite E1 in Hhd. simpl in Hhd. now rewrite Hhd.
+    - exists ks, []. split; [now rewrite app_nil_r|]. split; [reflexivity|].
+      apply valid_insert_split.
+      + now rewrite app_nil_r.
+      + rewrite Hself. simpl. rewrite andb_true_r. rewrite E1, le_all_app, HP. simpl.
+        apply Hmidall; auto. now apply first_pos_none.
+      + rewrite Hself_cs. destruct ks; auto.
+  Qed.
+
+  Lemma place_ordered_valid ks idx io i :
+    valid_kinds ks = true -> idx <= length ks ->
+    place_ordered self skip stop after before ks idx io = PInsert i ->
+    i <= length ks /\ valid_kinds (insert_at i self ks) = true.
+  Proof.
+    intros Hv Hidx. unfold place_ordered. destruct io.
+    - intros H. inversion H; subst; clear H.
+      destruct (last_pos (kind_beq self) ks) as [j|] eqn:E.
+      + destruct (last_pos_some _ _ _ E) as (a & x & b & E1 & E2 & E3 & E4).
+        apply kind_beq_eq in E3. subst x ks j.
+        split; [rewrite !app_length; simpl; lia|].
+        replace (a ++ self :: b) with ((a ++ [self]) ++ b) by (now rewrite <- app_assoc).
+        rewrite insert_at_split.
+        replace ((a ++ [self]) ++ b) with (a ++ self :: b) in Hv by (now rewrite <- app_assoc).
+        assert (Hv' := Hv). unfold valid_kinds in Hv'. apply andb_true_iff in Hv' as [_ Hs].
+        destruct (sorted_around _ _ _ _ Hs Hself) as [H1 H2].
+        apply valid_insert_split.
+        * now rewrite <- app_assoc.
+        * rewrite Hself, le_all_app, H1, H2. simpl. rewrite Hself, Nat.leb_refl. reflexivity.
+        * rewrite Hself_cs. destruct (a ++ [self]) eqn:Ea; auto. destruct a; discriminate.
+      + destruct (search_valid ks Hv) as (a & b & E1 & E2 & E3). rewrite E2. subst ks.
+        split; [rewrite app_length; lia|]. now rewrite insert_at_split.
+    - destruct (anyk after (skipn idx ks)) eqn:Ea; [discriminate|].
+      destruct (anyk before (firstn idx ks)) eqn:Eb; [discriminate|].
+      intros H. inversion H; subst; clear H. split; auto.
+      rewrite insert_at_firstn_skipn. apply valid_insert_split.
+      + now rewrite firstn_skipn.
+      + rewrite Hself. apply andb_true_iff. split.
+        * apply (anyk_false _ _ _ Eb). intros x Hx. apply (Hbefore _ Hx).
+        * apply (anyk_false _ _ _ Ea). intros x Hx. apply (Hafter _ Hx).
+      + rewrite Hself_cs. destruct (firstn i ks) eqn:Ef; auto.
+        destruct (skipn i ks) as [|y r] eqn:Es; auto. simpl.
+        simpl in Ea. apply orb_false_iff in Ea as [Ea _].
+        destruct (Hafter _ Ea) as [_ Hc]. now rewrite Hc.
+  Qed.
+End Ordered.
+
+(* ------------------------------------------------------------------ place: every accepted position keeps the order *)
+Lemma ge_all_0 ks : ge_all 0 ks = true.
+Proof. induction ks as [|x ks IH]; simpl; auto. rewrite IH. destruct (level x); reflexivity. Qed.
+
+Lemma le_all_4 ks : le_all 4 ks = true.
+Proof. induction ks as [|x ks IH]; simpl; auto. rewrite IH. destruct x; reflexivity. Qed.
+
+Lemma nocs_skipn n ks : nocs ks = true -> nocs (skipn n ks) = true.
+Proof. intros H. rewrite <- (firstn_skipn n ks), nocs_app in H. now apply andb_true_iff in H as [_ H]. Qed.
+
+Lemma nocs_skipn_valid ks idx :
+  valid_kinds ks = true -> (Nat.eqb idx 0 && headis CHARSET_RULE ks) = false -> nocs (skipn idx ks) = true.
+Proof.
+  intros Hv Hc. destruct idx as [|n].
+  - simpl in *. now apply valid_nocs_all.
+  - destruct ks as [|x r]; auto. simpl. apply nocs_skipn. eapply valid_nocs_tail; eauto.
+Qed.
+
+Lemma cs_cond ks idx :
+  (Nat.eqb idx 0 && headis CHARSET_RULE ks) = false ->
+  match firstn idx ks with [] => negb (headis CHARSET_RULE (skipn idx ks)) | _ => true end = true.
+Proof.
+  intros Hc. destruct idx as [|n]; simpl in *.
+  - now rewrite Hc.
+  - destruct ks; reflexivity.
+Qed.
+
+Lemma after_last_valid self l ks j :
+  level self = Some l -> kind_beq self CHARSET_RULE = false ->
+  valid_kinds ks = true -> last_pos (kind_beq self) ks = Some j ->
+  j <= length ks /\ valid_kinds (insert_at j self ks) = true.
+Proof.
+  intros Hself Hcs Hv E.
+  destruct (last_pos_some _ _ _ E) as (a & x & b & E1 & E2 & E3 & E4).
+  apply kind_beq_eq in E3. subst x ks j.
+  split; [rewrite !app_length; simpl; lia|].
+  replace (a ++ self :: b) with ((a ++ [self]) ++ b) by (now rewrite <- app_assoc).
+  rewrite insert_at_split.
+  replace ((a ++ [self]) ++ b) with (a ++ self :: b) in Hv by (now rewrite <- app_assoc).
+  assert (Hv' := Hv). unfold valid_kinds in Hv'. apply andb_true_iff in Hv' as [_ Hs].
+  destruct (sorted_around _ _ _ _ Hs Hself) as [H1 H2].
+  apply valid_insert_split.
+  - now rewrite <- app_assoc.
+  - rewrite Hself, le_all_app, H1, H2. simpl. rewrite Hself, Nat.leb_refl. reflexivity.
+  - rewrite Hcs. destruct (a ++ [self]) eqn:Ea; auto. destruct a; discriminate.
+Qed.
+
+Ltac pointwise := let x := fresh "x" in intros x; destruct x; vm_compute; auto; try discriminate.
+
+Lemma place_valid ks k idx io i :
+  valid_kinds ks = true -> idx <= length ks -> place ks k idx io = PInsert i ->
+  i <= length ks /\ valid_kinds (insert_at i k ks) = true.
+Proof.
+  intros Hv Hidx. unfold place.
+  destruct (kind_beq k CHARSET_RULE) eqn:Ecs.
+  { apply kind_beq_eq in Ecs. subst k.
+    assert (H0 : headis CHARSET_RULE ks = false -> 0 <= length ks /\ valid_kinds (insert_at 0 CHARSET_RULE ks) = true).
+    { intros Hh. split; [lia|]. change (insert_at 0 CHARSET_RULE ks) with ([] ++ CHARSET_RULE :: ks).
+      apply valid_insert_split; auto; simpl; [apply ge_all_0 | now rewrite Hh]. }
+    destruct io.
+    - destruct (headis CHARSET_RULE ks) eqn:Eh; [discriminate|]. intros H; inversion H; subst. auto.
+    - destruct (Nat.eqb idx 0) eqn:E0; simpl; [|discriminate].
+      destruct (headis CHARSET_RULE ks) eqn:Eh; [discriminate|]. intros H; inversion H; subst.
+      apply Nat.eqb_eq in E0. subst. auto. }
+  destruct (kin k uc_kinds && negb io) eqn:Euc.
+  { destruct (Nat.eqb idx 0 && headis CHARSET_RULE ks) eqn:Ec; [discriminate|].
+    intros H; inversion H; subst; clear H. split; auto.
+    apply andb_true_iff in Euc as [Euc _].
+    rewrite insert_at_firstn_skipn. apply valid_insert_split.
+    - now rewrite firstn_skipn.
+    - destruct k; try discriminate; reflexivity.
+    - rewrite Ecs. now apply cs_cond. }
+  destruct (kind_beq k IMPORT_RULE) eqn:Eim.
+  { apply kind_beq_eq in Eim. subst k. destruct io.
+    - destruct (last_pos (kind_beq IMPORT_RULE) ks) as [j|] eqn:E.
+      + intros H; inversion H; subst. eapply (after_last_valid IMPORT_RULE 1); eauto.
+      + destruct ks as [|x r].
+        * intros H; inversion H; subst. split; auto.
+        * destruct (kin x import_first_kinds) eqn:Ef; intros H; inversion H; subst; clear H.
+          -- split; [simpl; lia|]. change (insert_at 1 IMPORT_RULE (x :: r)) with ([x] ++ IMPORT_RULE :: r).
+             apply valid_insert_split; auto.
+             ++ simpl. rewrite (nocs_ge1 _ (valid_nocs_tail _ _ Hv)), andb_true_r.
+                destruct x; try discriminate; reflexivity.
+          -- split; [simpl; lia|]. change (insert_at 0 IMPORT_RULE (x :: r)) with ([] ++ IMPORT_RULE :: x :: r).
+             assert (Hh : headis CHARSET_RULE (x :: r) = false) by (destruct x; try discriminate; reflexivity).
+             apply valid_insert_split; auto.
+             ++ simpl level. cbv iota. apply nocs_ge1. now apply valid_nocs_all.
+             ++ simpl kind_beq. cbv iota. now rewrite Hh.
+    - destruct (Nat.eqb idx 0 && headis CHARSET_RULE ks) eqn:Ec; [discriminate|].
+      destruct (anyk import_before_kinds (firstn idx ks)) eqn:Eb; [discriminate|].
+      intros H; inversion H; subst; clear H. split; auto.
+      rewrite insert_at_firstn_skipn. apply valid_insert_split.
+      + now rewrite firstn_skipn.
+      + simpl level. cbv iota. apply andb_true_iff. split.
+        * apply (anyk_false _ _ _ Eb). pointwise.
+        * apply nocs_ge1. now apply nocs_skipn_valid.
+      + simpl kind_beq. cbv iota. now apply cs_cond. }
+  destruct (kind_beq k NAMESPACE_RULE) eqn:Ens.
+  { apply kind_beq_eq in Ens. subst k.
+    eapply (place_ordered_valid NAMESPACE_RULE ns_skip_kinds ns_stop_kinds ns_after_kinds ns_before_kinds 2);
+      eauto; try reflexivity; pointwise. }
+  destruct (kind_beq k VARIABLES_RULE) eqn:Eva.
+  { apply kind_beq_eq in Eva. subst k.
+    eapply (place_ordered_valid VARIABLES_RULE var_skip_kinds var_stop_kinds var_after_kinds var_before_kinds 3);
+      eauto; try reflexivity; pointwise. }
+  assert (Hlev : match level k with Some l => l = 4 | None => True end).
+  { destruct k; simpl; auto; discriminate. }
+  destruct io.
+  - intros H; inversion H; subst; clear H. split; auto.
+    rewrite <- (app_nil_r ks) at 2. rewrite insert_at_split.
+    apply valid_insert_split.
+    + now rewrite app_nil_r.
+    + destruct (level k) as [l|]; auto. subst l. now rewrite le_all_4.
+    + rewrite Ecs. destruct ks; reflexivity.
+  - destruct (anyk other_after_kinds (skipn idx ks)) eqn:Ea; [discriminate|].
+    intros H; inversion H; subst; clear H. split; auto.
+    rewrite insert_at_firstn_skipn. apply valid_insert_split.
+    + now rewrite firstn_skipn.
+    + destruct (level k) as [l|]; auto. subst l. rewrite le_all_4. simpl.
+      apply (anyk_false _ _ _ Ea). pointwise.
+    + rewrite Ecs. destruct (firstn i ks) eqn:Ef; auto.
+      destruct (skipn i ks) as [|y r] eqn:Es; auto. simpl.
+      simpl in Ea. apply orb_false_iff in Ea as [Ea _].
+      destruct y; try discriminate; reflexivity.
+Qed.
+
+(* ------------------------------------------------------------------ from kinds to rule lists *)
+Lemma kinds_insert_at i r rs : kinds (insert_at i r rs) = insert_at i (rkind r) (kinds rs).
+Proof. unfold kinds, insert_at. now rewrite map_app, firstn_map, skipn_map. Qed.
+Lemma kinds_remove_at i rs : kinds (remove_at i rs) = remove_at i (kinds rs).
+Proof. unfold kinds, remove_at. now rewrite map_app, firstn_map, skipn_map. Qed.
+Lemma kinds_app a b : kinds (a ++ b) = kinds a ++ kinds b.
+Proof. apply map_app. Qed.
+Lemma kinds_length rs : length (kinds rs) = length rs.
+Proof. apply map_length. Qed.
+
+Lemma forallb_firstn {A} (p : A -> bool) n l : forallb p l = true -> forallb p (firstn n l) = true.
+Proof. intros H. rewrite <- (firstn_skipn n l), forallb_app in H. now apply andb_true_iff in H as [H _]. Qed.
+Lemma forallb_skipn {A} (p : A -> bool) n l : forallb p l = true -> forallb p (skipn n l) = true.
+Proof. intros H. rewrite <- (firstn_skipn n l), forallb_app in H. now apply andb_true_iff in H as [_ H]. Qed.
+
+Lemma forallb_insert_at {A} (p : A -> bool) i x l :
+  forallb p l = true -> p x = true -> forallb p (insert_at i x l) = true.
+Proof.
+  intros H Hx. unfold insert_at. rewrite forallb_app. simpl.
+  now rewrite (forallb_firstn p i l H), Hx, (forallb_skipn p i l H).
+Qed.
+Lemma forallb_remove_at {A} (p : A -> bool) i l : forallb p l = true -> forallb p (remove_at i l) = true.
+Proof.
+  intros H. unfold remove_at. rewrite forallb_app. now rewrite (forallb_firstn p i l H), (forallb_skipn p (S i) l H).
+Qed.
+
+Definition VS (rs : list rule) : Prop := valid_sheet rs = true.
+
+Lemma VS_intro rs : valid_kinds (kinds rs) = true -> forallb kids_ok rs = true -> VS rs.
+Proof. intros H1 H2. unfold VS, valid_sheet. now rewrite H1, H2. Qed.
+Lemma VS_elim rs : VS rs -> valid_kinds (kinds rs) = true /\ forallb kids_ok rs = true.
+Proof. unfold VS, valid_sheet. intros H. now apply andb_true_iff in H. Qed.
+
+Lemma VS_remove_at i rs : VS rs -> VS (remove_at i rs).
+Proof.
+  intros H. apply VS_elim in H as [H1 H2]. apply VS_intro.
+  - rewrite kinds_remove_at. now apply valid_remove_at.
+  - now apply forallb_remove_at.
+Qed.
+
+Lemma VS_remove_split a x b : VS (a ++ x :: b) -> VS (a ++ b).
+Proof.
+  intros H. apply VS_elim in H as [H1 H2]. apply VS_intro.
+  - rewrite kinds_app in *. simpl in H1. eapply valid_remove_split; eauto.
+  - rewrite forallb_app in *. simpl in H2. apply andb_true_iff in H2 as [A B].
+    apply andb_true_iff in B as [_ B]. now rewrite A, B.
+Qed.
+
+Lemma VS_set_head_enc rs e : VS rs -> VS (set_head_enc rs e).
+Proof.
+  destruct rs as [|r t]; auto.
+Qed.
+
+Lemma clean_loop_VS items rest : forall kept, VS (rev kept ++ rest) -> VS (fst (clean_loop items kept rest)).
+Proof.
+  induction rest as [|r rest IH]; intros kept H; simpl.
+  - now rewrite app_nil_r in H.
+  - destruct (is_kind NAMESPACE_RULE r && negb (dict_has_item items (rprefix r) (ruri r))).
+    + destruct (protected (rev kept ++ r :: rest) r); simpl; auto.
+      apply IH. eapply VS_remove_split; eauto.
+    + apply IH. simpl. now rewrite <- app_assoc.
+Qed.
+
+Lemma clean_loop_exn items rest : forall kept e, snd (clean_loop items kept rest) = Some e -> e = NoModificationAllowedErr.
+Proof.
+  induction rest as [|r rest IH]; intros kept e; simpl; [discriminate|].
+  destruct (is_kind NAMESPACE_RULE r && negb (dict_has_item items (rprefix r) (ruri r))).
+  - destruct (protected (rev kept ++ r :: rest) r); simpl; [congruence | apply IH].
+  - apply IH.
+Qed.
+
+Lemma clean_namespaces_VS rs : VS rs -> VS (fst (clean_namespaces rs)).
+Proof. intros H. unfold clean_namespaces. now apply clean_loop_VS. Qed.
+
+Lemma delete_rule_VS rs i : VS rs -> VS (fst (delete_rule rs i)).
+Proof.
+  intros H. unfold delete_rule. destruct (py_index (length rs) i); auto.
+  destruct (nth_error rs n); auto. destruct (protected rs r); simpl; auto. now apply VS_remove_at.
+Qed.
+
+Lemma delete_rule_exc rs i rs' e : delete_rule rs i = (rs', Exc e) -> rs' = rs.
+Proof.
+  unfold delete_rule. destruct (py_index (length rs) i); [|congruence].
+  destruct (nth_error rs n); [|congruence]. destruct (protected rs r); congruence.
+Qed.
+
+Definition norm_index (len : nat) (index : option Z) : option nat :=
+  match index with
+  | None => Some len
+  | Some i => if (i <? 0)%Z || (Z.of_nat len <? i)%Z then None else Some (Z.to_nat i)
+  end.
+
+Lemma norm_index_le len index idx : norm_index len index = Some idx -> idx <= len.
+Proof.
+  destruct index as [i|]; simpl; [|intros H; inversion H; lia].
+  destruct ((i <? 0)%Z || (Z.of_nat len <? i)%Z) eqn:E; [discriminate|].
+  intros H; inversion H; subst. apply orb_false_iff in E as [E1 E2].
+  apply Z.ltb_ge in E1. apply Z.ltb_ge in E2. lia.
+Qed.
+
+Lemma insert_rule_VS rx simple clean rs r index io :
+  VS rs -> kids_ok r = true -> VS (fst (insert_rule rx simple clean rs r index io)).
+Proof.
+  intros H Hr. unfold insert_rule. fold (norm_index (length rs) index).
+  destruct (norm_index (length rs) index) as [idx|] eqn:En; auto.
+  apply norm_index_le in En.
+  destruct (place (kinds rs) (rkind r) idx io) as [|i|] eqn:Ep; simpl; auto.
+  - assert (Hins : VS (insert_at i r rs)).
+    { apply VS_elim in H as [H1 H2]. rewrite <- kinds_length in En.
+      destruct (place_valid _ _ _ _ _ H1 En Ep) as [_ Hv]. apply VS_intro.
+      - now rewrite kinds_insert_at.
+      - now apply forallb_insert_at. }
+    destruct (kind_beq (rkind r) NAMESPACE_RULE); auto.
+    destruct (match dict_get (match simple with Some d => d | None => ns_view rs end) (rprefix r) with
+              | Some u => N.eqb u (ruri r) | None => false end); auto.
+    destruct clean; auto.
+    pose proof (clean_namespaces_VS _ Hins) as Hc.
+    destruct (clean_namespaces (insert_at i r rs)) as [rs'' [e|]]; auto.
+  - now apply VS_set_head_enc.
+Qed.
+
+(* ---- parser *)
+Lemma media_child_ok k c : media_child k = Some (Some c) -> kin c (media_forbidden_insert ++ media_forbidden_parse) = false.
+Proof. destruct k; vm_compute; intros H; inversion H; reflexivity. Qed.
+
+Lemma media_children_ok rx ks : forall c, media_children rx ks = Some c ->
+  anyk (media_forbidden_insert ++ media_forbidden_parse) c = false.
+Proof.
+  remember (media_forbidden_insert ++ media_forbidden_parse) as T eqn:ET.
+  induction ks as [|k r IH]; simpl; intros c H.
+  - inversion H. reflexivity.
+  - destruct (media_child k) as [[c0|]|] eqn:E.
+    + destruct (media_children rx r) as [c'|]; [|discriminate]. inversion H; subst c. simpl.
+      pose proof (media_child_ok _ _ E) as Hk. rewrite <- ET in Hk.
+      now rewrite Hk, (IH c' eq_refl).
+    + auto.
+    + destruct rx; [discriminate | auto].
+Qed.
+
+Lemma page_children_ok ks : anyk page_forbidden_insert (page_children ks) = false.
+Proof. unfold page_children. destruct (existsb (kind_beq MARGIN_RULE) ks); reflexivity. Qed.
+
+Lemma kids_ok_leaf k p u e us : kind_beq k MEDIA_RULE = false -> kind_beq k PAGE_RULE = false ->
+  kids_ok (mkRule k p u e us []) = true.
+Proof. unfold kids_ok, is_kind. simpl. intros -> ->. reflexivity. Qed.
+
+Lemma VS_map_same f rs :
+  (forall r, rkind (f r) = rkind r /\ rkids (f r) = rkids r) -> VS rs -> VS (map f rs).
+Proof.
+  intros Hf H. apply VS_elim in H as [H1 H2]. apply VS_intro.
+  - unfold kinds in *. rewrite map_map. erewrite map_ext; [exact H1|]. intros a. apply Hf.
+  - rewrite forallb_forall in *. intros x Hx. apply in_map_iff in Hx as (y & <- & Hy).
+    specialize (H2 _ Hy). destruct (Hf y) as [A B]. unfold kids_ok, is_kind in *. now rewrite A, B.
+Qed.
+
+Lemma parse_step_VS rx st p st' : VS (p_rules st) -> parse_step rx st p = inl st' -> VS (p_rules st').
+Proof.
+  intros H. unfold parse_step.
+  destruct (match parse_threshold (pkind p) with Some t => Nat.ltb t (p_expected st) | None => false end).
+  { destruct rx; [discriminate|]. intros E; inversion E; subst; auto. }
+  destruct (kind_beq (pkind p) NAMESPACE_RULE) eqn:Ens.
+  { destruct (dict_get (p_ns st) (pprefix p)).
+    - intros E; inversion E; subst; simpl. apply VS_map_same; auto.
+      intros r. destruct (is_kind NAMESPACE_RULE r && N.eqb (rprefix r) (pprefix p)); auto.
+    - pose proof (insert_rule_VS rx (Some (p_ns st)) false (p_rules st)
+                                 (mkRule (pkind p) (pprefix p) (puri p) 0 [] []) None false H) as Hi.
+      destruct (insert_rule rx (Some (p_ns st)) false (p_rules st)
+                            (mkRule (pkind p) (pprefix p) (puri p) 0 [] []) None false) as [rs res].
+      simpl in Hi. assert (Hk : VS rs).
+      { apply Hi. apply kind_beq_eq in Ens. rewrite Ens. reflexivity. }
+      destruct res; intros E; inversion E; subst; auto. }
+  set (built := if kind_beq (pkind p) STYLE_RULE then _ else _).
+  assert (Hb : forall r, built = inl (Some r) -> kids_ok r = true).
+  { subst built. intros r.
+    destruct (kind_beq (pkind p) STYLE_RULE) eqn:E1.
+    { destruct (resolve (p_ns st) (ppfx p)); [|destruct rx]; intros E; inversion E.
+      apply kind_beq_eq in E1. rewrite E1. reflexivity. }
+    destruct (kind_beq (pkind p) MEDIA_RULE) eqn:E2.
+    { destruct (media_children rx (pkids p)) as [c|] eqn:Em; intros E; inversion E.
+      apply kind_beq_eq in E2. rewrite E2. unfold kids_ok, is_kind. cbn [rkind rkids].
+      rewrite kind_beq_refl. now rewrite (media_children_ok _ _ _ Em). }
+    destruct (kind_beq (pkind p) PAGE_RULE) eqn:E3.
+    { intros E; inversion E. apply kind_beq_eq in E3. rewrite E3. unfold kids_ok, is_kind. cbn [rkind rkids].
+      replace (kind_beq PAGE_RULE MEDIA_RULE) with false by reflexivity. rewrite kind_beq_refl.
+      now rewrite page_children_ok. }
+    intros E; inversion E. now apply kids_ok_leaf. }
+  destruct built as [[r|]|e]; [| |discriminate].
+  - pose proof (insert_rule_VS rx (Some (p_ns st)) true (p_rules st) r None false H (Hb r eq_refl)) as Hi.
+    destruct (insert_rule rx (Some (p_ns st)) true (p_rules st) r None false) as [rs res]. simpl in Hi.
+    destruct res; intros E; inversion E; subst; auto.
+  - intros E; inversion E; subst; auto.
+Qed.
+
+Lemma parse_loop_VS rx ps : forall st st', VS (p_rules st) -> parse_loop rx st ps = inl st' -> VS (p_rules st').
+Proof.
+  induction ps as [|p ps IH]; simpl; intros st st' H E.
+  - inversion E; subst; auto.
+  - destruct (parse_step rx st p) as [st1|e] eqn:Es; [|discriminate].
+    eapply IH; [|exact E]. eapply parse_step_VS; eauto.
+Qed.
+
+Lemma parse_sheet_VS rx env ps rs e : parse_sheet rx env ps = inl (rs, e) -> VS rs.
+Proof.
+  unfold parse_sheet. destruct (parse_loop rx (mkP [] env 0) ps) as [st|x] eqn:E; [|discriminate].
+  intros H. inversion H.
+  assert (Hv : VS (p_rules st)) by (eapply (parse_loop_VS rx ps (mkP [] env 0)); [reflexivity | exact E]).
+  apply clean_namespaces_VS in Hv. now rewrite H1 in Hv.
+Qed.
+
+(* ------------------------------------------------------------------ operations keep the sheet valid *)
+Lemma forallb_nth_error {A} (p : A -> bool) l n x : forallb p l = true -> nth_error l n = Some x -> p x = true.
+Proof. intros H E. rewrite forallb_forall in H. apply H. eapply nth_error_In; eauto. Qed.
+
+Definition src_ok (s : source) : Prop := match s with Obj r => kids_ok r = true | Text _ => True end.
+
+Lemma insert_any_VS rx rs src index io : VS rs -> src_ok src -> VS (fst (insert_any rx rs src index io)).
+Proof.
+  intros H Hs. unfold insert_any.
+  destruct (match index with None => true | Some i => negb ((i <? 0)%Z || (Z.of_nat (length rs) <? i)%Z) end); auto.
+  destruct src as [ps|r].
+  - destruct (negb (is_charset_proto ps) && headis CHARSET_RULE (kinds rs)); cbv iota beta;
+      match goal with |- context[parse_sheet ?a ?b ?c] =>
+        destruct (parse_sheet a b c) as [[tmp [e|]]|e] eqn:Ep; auto end;
+      match goal with |- context[negb (Nat.eqb (length ?t) ?n)] => destruct (negb (Nat.eqb (length t) n)); auto end;
+      match goal with |- context[nth_error ?t ?n] => destruct (nth_error t n) as [r|] eqn:En; auto end;
+      (apply insert_rule_VS; auto; apply parse_sheet_VS in Ep; apply VS_elim in Ep as [_ Ep];
+       eapply forallb_nth_error; eauto).
+  - now apply insert_rule_VS.
+Qed.
+
+Lemma set_text_VS rx rs ps : VS rs -> VS (fst (set_text rx rs ps)).
+Proof.
+  intros H. unfold set_text. destruct (parse_sheet rx [] ps) as [[rs' [e|]]|e] eqn:Ep; auto;
+    simpl; eapply parse_sheet_VS; eauto.
+Qed.
+
+Lemma set_encoding_VS rx rs e : VS rs -> VS (fst (set_encoding rx rs e)).
+Proof.
+  intros H. unfold set_encoding. destruct (headis CHARSET_RULE (kinds rs)).
+  - destruct (N.eqb e 0).
+    + pose proof (delete_rule_VS rs 0 H) as Hd. destruct (delete_rule rs 0) as [rs' [v|x| |]]; auto.
+    + simpl. now apply VS_set_head_enc.
+  - destruct (N.eqb e 0); auto.
+    pose proof (insert_rule_VS rx None true rs (mkRule CHARSET_RULE 0 0 e [] []) (Some 0%Z) false H eq_refl) as Hi.
+    destruct (insert_rule rx None true rs (mkRule CHARSET_RULE 0 0 e [] []) (Some 0%Z) false) as [rs' [v|x| |]]; auto.
+Qed.
+
+Lemma ns_set_VS rx rs p u : VS rs -> VS (fst (ns_set rx rs p u)).
+Proof.
+  intros H. unfold ns_set. destruct (find_ns rs p).
+  - destruct (dict_get (ns_view rs) p); auto. destruct (N.eqb (ruri r) u); auto.
+  - pose proof (insert_rule_VS rx None true rs (mkRule NAMESPACE_RULE p u 0 [] []) None true H eq_refl) as Hi.
+    destruct (insert_rule rx None true rs (mkRule NAMESPACE_RULE p u 0 [] []) None true) as [rs' [v|x| |]]; auto.
+Qed.
+
+Lemma ns_del_VS rx rs p : VS rs -> VS (fst (ns_del rx rs p)).
+Proof.
+  intros H. unfold ns_del.
+  destruct (last_index_of (fun r => N.eqb (rprefix r) p) (filter (is_kind NAMESPACE_RULE) rs) 0 None); auto.
+  now apply delete_rule_VS.
+Qed.
+
+(* containers *)
+Lemma update_at_same {A} (l : list A) k x : nth_error l k = Some x -> firstn k l ++ x :: skipn (S k) l = l.
+Proof.
+  revert l. induction k as [|k IH]; intros l H; destruct l as [|y l]; try (simpl in H; discriminate).
+  - simpl in H. inversion H. reflexivity.
+  - simpl in H. change (y :: (firstn k l ++ x :: skipn (S k) l) = y :: l). f_equal. now apply IH.
+Qed.
+
+Lemma VS_update_at rs k r r' :
+  VS rs -> nth_error rs k = Some r -> rkind r' = rkind r -> kids_ok r' = true -> VS (update_at rs k r').
+Proof.
+  intros H En Hk Hr. apply VS_elim in H as [H1 H2]. apply VS_intro.
+  - unfold update_at. rewrite kinds_app.
+    change (kinds (r' :: skipn (S k) rs)) with (rkind r' :: kinds (skipn (S k) rs)). rewrite Hk.
+    change (rkind r :: kinds (skipn (S k) rs)) with (kinds (r :: skipn (S k) rs)).
+    rewrite <- kinds_app. now rewrite (update_at_same _ _ _ En).
+  - unfold update_at. rewrite forallb_app.
+    change (forallb kids_ok (r' :: skipn (S k) rs)) with (kids_ok r' && forallb kids_ok (skipn (S k) rs)).
+    now rewrite (forallb_firstn _ k rs H2), Hr, (forallb_skipn _ (S k) rs H2).
+Qed.
+
+Lemma anyk_insert_at T i k l : anyk T l = false -> kin k T = false -> anyk T (insert_at i k l) = false.
+Proof.
+  intros H Hk. unfold anyk, insert_at in *. rewrite existsb_app. simpl. rewrite Hk. simpl.
+  rewrite <- (firstn_skipn i l), existsb_app in H. apply orb_false_iff in H as [A B]. now rewrite A, B.
+Qed.
+
+Lemma anyk_remove_at T i l : anyk T l = false -> anyk T (remove_at i l) = false.
+Proof.
+  intros H. apply existsb_false_forallb in H. unfold anyk, remove_at.
+  pose proof (forallb_firstn _ i l H) as A. pose proof (forallb_skipn _ (S i) l H) as B.
+  rewrite existsb_app. apply orb_false_iff. split.
+  - clear - A. induction (firstn i l) as [|x t IH]; auto. simpl in *. apply andb_true_iff in A as [A1 A2].
+    apply negb_true_iff in A1. now rewrite A1, IH.
+  - clear - B. induction (skipn (S i) l) as [|x t IH]; auto. simpl in *. apply andb_true_iff in B as [B1 B2].
+    apply negb_true_iff in B1. now rewrite B1, IH.
+Qed.
+
+Definition ktable (container : kind) : list kind :=
+  if kind_beq container MEDIA_RULE then media_forbidden_insert ++ media_forbidden_parse else page_forbidden_insert.
+
+Lemma kids_ok_container r : is_container r = true -> kids_ok r = negb (anyk (ktable (rkind r)) (rkids r)).
+Proof.
+  unfold is_container, kids_ok, ktable, is_kind. destruct (kind_beq (rkind r) MEDIA_RULE); auto.
+  simpl. intros ->. reflexivity.
+Qed.
+
+Lemma forbidden_in_table c k : kin k (forbidden_in c) = false -> kin k (ktable c) = false.
+Proof. unfold forbidden_in, ktable. destruct (kind_beq c MEDIA_RULE); auto. destruct k; vm_compute; auto. Qed.
+
+Lemma set_kids_ok r c : is_container r = true -> anyk (ktable (rkind r)) c = false -> kids_ok (set_kids r c) = true.
+Proof.
+  intros Hc H. rewrite kids_ok_container by exact Hc. simpl. now rewrite H.
+Qed.
+
+Lemma container_op_ok rx r c r' res :
+  is_container r = true -> kids_ok r = true ->
+  match c with
+  | CIns src index => container_insert rx r src index
+  | CDel index => container_delete r index
+  | CDelObj i => if Nat.ltb i (length (rkids r)) then container_delete r (Z.of_nat i) else (r, Exc IndexSizeErr)
+  | CText ks => container_text rx r ks
+  end = (r', res) ->
+  rkind r' = rkind r /\ kids_ok r' = true.
+Proof.
+  intros Hc Hk. rewrite (kids_ok_container _ Hc) in Hk. apply negb_true_iff in Hk.
+  assert (Hdel : forall i r' res, container_delete r i = (r', res) -> rkind r' = rkind r /\ kids_ok r' = true).
+  { intros i r0 res0. unfold container_delete. destruct (py_index (length (rkids r)) i).
+    - intros E; inversion E; subst. split; auto. apply set_kids_ok; auto. now apply anyk_remove_at.
+    - intros E; inversion E; subst. split; auto. rewrite (kids_ok_container _ Hc). now rewrite Hk. }
+  assert (Hsame : rkind r = rkind r /\ kids_ok r = true).
+  { split; auto. rewrite (kids_ok_container _ Hc). now rewrite Hk. }
+  destruct c as [src index|index|i|ks].
+  - unfold container_insert.
+    destruct (match index with None => Some (length (rkids r)) | Some i => _ end) as [idx|];
+      [|intros E; inversion E; subst; auto].
+    destruct (match src with Obj r0 => _ | Text ps => _ end) as [[k|]|res0];
+      try (intros E; inversion E; subst; auto; fail).
+    destruct (kin k (forbidden_in (rkind r))) eqn:Ef; intros E; inversion E; subst; auto.
+    split; auto. apply set_kids_ok; auto. apply anyk_insert_at; auto. now apply forbidden_in_table.
+  - apply Hdel.
+  - destruct (Nat.ltb i (length (rkids r))); [apply Hdel | intros E; inversion E; subst; auto].
+  - unfold container_text. destruct (kind_beq (rkind r) MEDIA_RULE) eqn:Em.
+    + destruct (media_children rx ks) as [kids|] eqn:Ek; intros E; inversion E; subst; auto.
+      split; auto. apply set_kids_ok; auto. unfold ktable. rewrite Em. eapply media_children_ok; eauto.
+    + destruct (forallb (kind_beq MARGIN_RULE) ks); intros E; inversion E; subst; auto.
+      split; auto. apply set_kids_ok; auto. unfold ktable. rewrite Em. apply page_children_ok.
+Qed.
+
+Definition op_ok (o : op) : Prop :=
+  match o with Ins src _ _ => src_ok src | _ => True end.
+
+Lemma step_VS rx rs o : op_ok o -> VS rs -> VS (fst (step rx rs o)).
+Proof.
+  intros Ho H. destruct o as [src index io|index|i|p u|p|e|ps|k c]; simpl.
+  - now apply insert_any_VS.
+  - now apply delete_rule_VS.
+  - destruct (Nat.ltb i (length rs)); auto. now apply delete_rule_VS.
+  - now apply ns_set_VS.
+  - now apply ns_del_VS.
+  - now apply set_encoding_VS.
+  - now apply set_text_VS.
+  - destruct (nth_error rs k) as [r|] eqn:En; auto.
+    destruct (negb (is_container r)) eqn:Ec; auto. apply negb_false_iff in Ec.
+    pose proof (VS_elim _ H) as [_ Hk]. pose proof (forallb_nth_error _ _ _ _ Hk En) as Hr.
+    destruct (match c with CIns src index => _ | CDel index => _ | CDelObj i => _ | CText ks => _ end) as [r' res] eqn:E.
+    destruct (container_op_ok rx r c r' res Ec Hr E) as [A B]. simpl. eapply VS_update_at; eauto.
+Qed.
+
+Lemma run_VS rx ops : forall rs, Forall op_ok ops -> VS rs -> VS (run rx ops rs).
+Proof.
+  induction ops as [|o ops IH]; simpl; intros rs Hf H; auto.
+  inversion Hf; subst. apply IH; auto. now apply step_VS.
+Qed.
+
+Theorem order_invariant_main rx ops : Forall op_ok ops -> valid_sheet (run rx ops []) = true.
+Proof. intros Hf. apply run_VS; auto. reflexivity. Qed.
+
+(* ------------------------------------------------------------------ a rejected call leaves the list unchanged *)
+Definition is_ins (o : op) : bool :=
+  match o with Ins _ _ _ => true | In _ (CIns _ _) => true | _ => false end.
+Definition rejected (o : op) (res : result) : bool :=
+  match res with Exc _ => true | Ret None => is_ins o | _ => false end.
+(* operations that end in _cleanNamespaces, which may raise after the list was changed *)
+Definition ends_in_clean (o : op) : bool :=
+  match o with Ins _ _ _ | NsSet _ _ | SetText _ => true | _ => false end.
+
+Lemma insert_rule_rej rx simple clean rs r index io rs' res :
+  insert_rule rx simple clean rs r index io = (rs', res) ->
+  (res = Ret None \/ exists e, res = Exc e /\ (e <> NoModificationAllowedErr \/ kind_beq (rkind r) NAMESPACE_RULE = false)) ->
+  rs' = rs.
+Proof.
+  unfold insert_rule. fold (norm_index (length rs) index).
+  destruct (norm_index (length rs) index) as [idx|]; [|intros E; inversion E; auto].
+  destruct (place (kinds rs) (rkind r) idx io) as [|i|].
+  - intros E; inversion E; auto.
+  - destruct (kind_beq (rkind r) NAMESPACE_RULE) eqn:Ens.
+    + destruct (match dict_get _ (rprefix r) with Some u => N.eqb u (ruri r) | None => false end).
+      * intros E; inversion E; auto.
+      * destruct clean.
+        -- destruct (clean_namespaces (insert_at i r rs)) as [rs'' [e|]] eqn:Ec; intros E; inversion E; subst.
+           ++ intros [H|(e0 & H & [H2|H2])]; try discriminate. inversion H; subst.
+              exfalso. apply H2. unfold clean_namespaces in Ec.
+              eapply (clean_loop_exn _ _ []). rewrite Ec. reflexivity.
+           ++ intros [H|(e0 & H & _)]; discriminate.
+        -- intros E; inversion E; subst. intros [H|(e0 & H & _)]; discriminate.
+    + intros E; inversion E; subst. intros [H|(e0 & H & _)]; discriminate.
+  - intros E; inversion E; subst. intros [H|(e0 & H & _)]; discriminate.
+Qed.
+
+Lemma parse_sheet_exn rx env ps rs e : parse_sheet rx env ps = inl (rs, Some e) -> e = NoModificationAllowedErr.
+Proof.
+  unfold parse_sheet. destruct (parse_loop rx (mkP [] env 0) ps) as [st|x]; [|discriminate].
+  intros H. inversion H as [H1]. unfold clean_namespaces in H1. eapply (clean_loop_exn _ _ []). rewrite H1. reflexivity.
+Qed.
+
+Lemma container_rej rx r c r' res :
+  match c with
+  | CIns src index => container_insert rx r src index
+  | CDel index => container_delete r index
+  | CDelObj i => if Nat.ltb i (length (rkids r)) then container_delete r (Z.of_nat i) else (r, Exc IndexSizeErr)
+  | CText ks => container_text rx r ks
+  end = (r', res) ->
+  rejected (In 0 c) res = true -> r' = r.
+Proof.
+  assert (Hdel : forall i r' res, container_delete r i = (r', res) -> (exists e, res = Exc e) -> r' = r).
+  { intros i r0 res0. unfold container_delete. destruct (py_index (length (rkids r)) i);
+      intros E; inversion E; subst; auto. intros [e H]; discriminate. }
+  destruct c as [src index|index|i|ks]; simpl.
+  - unfold container_insert.
+    destruct (match index with None => Some (length (rkids r)) | Some i => _ end) as [idx|];
+      [|intros E; inversion E; subst; auto].
+    destruct (match src with Obj r0 => _ | Text ps => _ end) as [[k|]|res0];
+      try (intros E; inversion E; subst; auto; fail).
+    destruct (kin k (forbidden_in (rkind r))); intros E; inversion E; subst; auto. discriminate.
+  - intros E Hr. destruct res as [[v|]|e| |]; try discriminate. eapply Hdel; eauto.
+  - destruct (Nat.ltb i (length (rkids r))).
+    + intros E Hr. destruct res as [[v|]|e| |]; try discriminate. eapply Hdel; eauto.
+    + intros E; inversion E; auto.
+  - unfold container_text. destruct (kind_beq (rkind r) MEDIA_RULE).
+    + destruct (media_children rx ks); intros E; inversion E; subst; auto. discriminate.
+    + destruct (forallb (kind_beq MARGIN_RULE) ks); intros E; inversion E; subst; auto; discriminate.
+Qed.
+
+Theorem rejected_unchanged_main rx rs o rs' res :
+  step rx rs o = (rs', res) -> rejected o res = true ->
+  (ends_in_clean o = true -> res <> Exc NoModificationAllowedErr) -> rs' = rs.
+Proof.
+  assert (Hrej : forall res0, (res0 = Ret None \/ exists e, res0 = Exc e) -> res0 <> Exc NoModificationAllowedErr ->
+                 forall r, res0 = Ret None \/ exists e, res0 = Exc e /\
+                   (e <> NoModificationAllowedErr \/ kind_beq (rkind r) NAMESPACE_RULE = false)).
+  { intros res0 [H|[e H]] Hn r; [now left|right]. exists e. split; auto. left. congruence. }
+  destruct o as [src index io|index|i|p u|p|e|ps|k c]; simpl; intros E Hr Hn.
+  - specialize (Hn eq_refl).
+    assert (Hres : res = Ret None \/ exists e, res = Exc e).
+    { destruct res as [[v|]|e| |]; try discriminate; eauto. }
+    revert E. unfold insert_any.
+    destruct (match index with None => true | Some i => negb ((i <? 0)%Z || (Z.of_nat (length rs) <? i)%Z) end);
+      [|intros E; inversion E; auto].
+    destruct src as [ps|r].
+    + destruct (negb (is_charset_proto ps) && headis CHARSET_RULE (kinds rs)); cbv iota beta;
+        match goal with |- context[parse_sheet ?a ?b ?c] =>
+          destruct (parse_sheet a b c) as [[tmp [e|]]|e]; try (intros E; inversion E; auto; fail) end;
+        match goal with |- context[negb (Nat.eqb (length ?t) ?n)] =>
+          destruct (negb (Nat.eqb (length t) n)); try (intros E; inversion E; auto; fail) end;
+        match goal with |- context[nth_error ?t ?n] =>
+          destruct (nth_error t n) as [r|]; try (intros E; inversion E; auto; fail) end;
+        intros E; eapply insert_rule_rej; eauto.
+    + intros E; eapply insert_rule_rej; eauto.
+  - destruct res as [[v|]|e| |]; try discriminate. eapply delete_rule_exc; eauto.
+  - destruct res as [[v|]|e| |]; try discriminate.
+    destruct (Nat.ltb i (length rs)); [eapply delete_rule_exc; eauto | inversion E; auto].
+  - specialize (Hn eq_refl). destruct res as [[v|]|e| |]; try discriminate.
+    revert E. unfold ns_set. destruct (find_ns rs p).
+    + destruct (dict_get (ns_view rs) p); [destruct (N.eqb (ruri r) u)|]; intros E; inversion E; auto.
+    + destruct (insert_rule rx None true rs (mkRule NAMESPACE_RULE p u 0 [] []) None true) as [rs1 res1] eqn:Ei.
+      destruct res1 as [v|x| |]; intros E; inversion E; subst.
+      eapply insert_rule_rej; [exact Ei|]. right. exists e. split; auto. left. congruence.
+  - destruct res as [[v|]|e| |]; try discriminate.
+    revert E. unfold ns_del.
+    destruct (last_index_of (fun r => N.eqb (rprefix r) p) (filter (is_kind NAMESPACE_RULE) rs) 0 None).
+    + intros E. eapply delete_rule_exc; eauto.
+    + intros E; inversion E; auto.
+  - destruct res as [[v|]|x| |]; try discriminate.
+    revert E. unfold set_encoding. destruct (headis CHARSET_RULE (kinds rs)).
+    + destruct (N.eqb e 0); [|intros E; inversion E].
+      destruct (delete_rule rs 0) as [rs1 res1] eqn:Ed. destruct res1 as [v|y| |]; intros E; inversion E; subst.
+      eapply delete_rule_exc; eauto.
+    + destruct (N.eqb e 0); [intros E; inversion E|].
+      destruct (insert_rule rx None true rs (mkRule CHARSET_RULE 0 0 e [] []) (Some 0%Z) false) as [rs1 res1] eqn:Ei.
+      destruct res1 as [v|y| |]; intros E; inversion E; subst.
+      eapply insert_rule_rej; [exact Ei|]. right. exists x. split; auto.
+  - specialize (Hn eq_refl). destruct res as [[v|]|x| |]; try discriminate.
+    revert E. unfold set_text. destruct (parse_sheet rx [] ps) as [[rs1 [e|]]|e] eqn:Ep; intros E; inversion E; subst; auto.
+    exfalso. apply Hn. f_equal. eapply parse_sheet_exn; eauto.
+  - destruct (nth_error rs k) as [r|] eqn:En; [|inversion E; subst; discriminate].
+    destruct (negb (is_container r)); [inversion E; subst; discriminate|].
+    destruct (match c with CIns src index => _ | CDel index => _ | CDelObj i => _ | CText ks => _ end) as [r' res0] eqn:Ec.
+    inversion E; subst. rewrite (container_rej rx r c r' res Ec).
+    + unfold update_at. now apply update_at_same.
+    + destruct res as [[v|]|x| |]; auto.
+Qed.
+
+(* the excluded family is real: _cleanNamespaces raises after the new rule is in the list *)
+Definition refute_sheet : list rule :=
+  [mkRule NAMESPACE_RULE 1 1 0 [] []; mkRule NAMESPACE_RULE 2 2 0 [] []; mkRule STYLE_RULE 0 0 0 [2%N] []].
+Definition refute_op : op := Ins (Obj (mkRule NAMESPACE_RULE 1 2 0 [] [])) None true.
+
+Theorem rejected_unchanged_refuted_main :
+  exists rx rs o, valid_sheet rs = true /\ op_ok o /\
+    rejected o (snd (step rx rs o)) = true /\ fst (step rx rs o) <> rs.
+Proof.
+  exists true, refute_sheet, refute_op. repeat split; try reflexivity. vm_compute. discriminate.
+Qed.
+
+(* ------------------------------------------------------------------ the parser accepts every valid kind list unchanged *)
+Lemma valid_app_l a b : valid_kinds (a ++ b) = true -> valid_kinds a = true.
+Proof.
+  revert a. induction b as [|x b IH]; intros a H.
+  - now rewrite app_nil_r in H.
+  - apply IH. eapply valid_remove_split; eauto.
+Qed.
+
+Lemma valid_charset_first acc r : valid_kinds (acc ++ CHARSET_RULE :: r) = true -> acc = [].
+Proof.
+  destruct acc as [|x a]; auto. unfold valid_kinds. simpl. rewrite nocs_app. simpl.
+  rewrite andb_false_r. simpl. discriminate.
+Qed.
+
+Lemma valid_le_all acc k r l : valid_kinds (acc ++ k :: r) = true -> level k = Some l -> le_all l acc = true.
+Proof.
+  unfold valid_kinds. intros H Hl. apply andb_true_iff in H as [_ Hs]. now destruct (sorted_around _ _ _ _ Hs Hl).
+Qed.
+
+Lemma le_all_anyk l T acc :
+  (forall x, le1 l x = true -> kin x T = false) -> le_all l acc = true -> anyk T acc = false.
+Proof.
+  intros HT. induction acc as [|x a IH]; simpl; auto. intros H. apply andb_true_iff in H as [H1 H2].
+  now rewrite (HT x H1), (IH H2).
+Qed.
+
+Lemma len0_head acc : (Nat.eqb (length acc) 0 && headis CHARSET_RULE acc) = false.
+Proof. destruct acc; reflexivity. Qed.
+
+Lemma place_end acc k r :
+  valid_kinds (acc ++ k :: r) = true -> place acc k (length acc) false = PInsert (length acc).
+Proof.
+  intros Hv. unfold place, place_ordered. rewrite firstn_all, skipn_all, len0_head.
+  destruct k; simpl.
+  - reflexivity.
+  - reflexivity.
+  - apply valid_charset_first in Hv. subst. reflexivity.
+  - rewrite (le_all_anyk 1 import_before_kinds acc); auto; [pointwise | eapply valid_le_all; eauto].
+  - reflexivity.
+  - reflexivity.
+  - reflexivity.
+  - rewrite (le_all_anyk 2 ns_before_kinds acc); auto; [pointwise | eapply valid_le_all; eauto].
+  - reflexivity.
+  - reflexivity.
+  - rewrite (le_all_anyk 3 var_before_kinds acc); auto; [pointwise | eapply valid_le_all; eauto].
+Qed.
+
+Definition bound (acc : list kind) : nat := if le_all 1 acc then 1 else if le_all 3 acc then 2 else 3.
+
+Lemma bound_ge1 acc : 1 <= bound acc.
+Proof. unfold bound. destruct (le_all 1 acc); [lia|]. destruct (le_all 3 acc); lia. Qed.
+
+Lemma bound_snoc acc k :
+  bound (acc ++ [k]) = if le_all 1 acc && le1 1 k then 1 else if le_all 3 acc && le1 3 k then 2 else 3.
+Proof. unfold bound. rewrite !le_all_app. simpl. unfold le1. now rewrite !andb_true_r. Qed.
+
+Lemma accept_loop_valid ks : forall acc e,
+  valid_kinds (acc ++ ks) = true -> e <= bound acc -> (acc = [] -> e = 0) -> accept_loop acc e ks = acc ++ ks.
+Proof.
+  induction ks as [|k r IH]; intros acc e Hv He H0; simpl.
+  - now rewrite app_nil_r.
+  - pose proof (place_end _ _ _ Hv) as Hp.
+    assert (Hle : forall l, level k = Some l -> le_all l acc = true) by (intros l; eapply valid_le_all; eauto).
+    assert (Hth : match parse_threshold k with Some t => Nat.ltb t e | None => false end = false).
+    { destruct k; simpl; auto; apply Nat.ltb_ge.
+      - apply valid_charset_first in Hv. rewrite (H0 Hv). lia.
+      - unfold bound in He. rewrite (Hle 1 eq_refl) in He. lia.
+      - unfold bound in He. rewrite (le_all_mono 2 3 acc) in He by (auto; apply Hle; reflexivity).
+        destruct (le_all 1 acc); lia.
+      - unfold bound in He. rewrite (Hle 3 eq_refl) in He. destruct (le_all 1 acc); lia. }
+    rewrite Hth, Hp.
+    replace (insert_at (length acc) k acc) with (acc ++ [k])
+      by (unfold insert_at; now rewrite firstn_all, skipn_all).
+    replace (acc ++ k :: r) with ((acc ++ [k]) ++ r) by (now rewrite <- app_assoc).
+    apply IH.
+    + now rewrite <- app_assoc.
+    + rewrite bound_snoc. pose proof (bound_ge1 acc) as Hb. unfold bound in *.
+      assert (Htr : forall x, x = Nat.max 1 e -> x <= (if le_all 1 acc then 1 else if le_all 3 acc then 2 else 3)).
+      { intros x ->. destruct (le_all 1 acc); [lia|]. destruct (le_all 3 acc); lia. }
+      destruct k; unfold le1; cbn [level parse_next]; rewrite ?andb_true_r, ?andb_false_r; cbn [Nat.leb andb];
+        rewrite ?andb_true_r, ?andb_false_r; try (apply Htr; reflexivity); try lia;
+        first [ apply valid_charset_first in Hv; subst; simpl; lia
+              | rewrite (Hle 1 eq_refl); lia
+              | rewrite (le_all_mono 2 3 acc) by (auto; apply Hle; reflexivity); lia
+              | rewrite (Hle 3 eq_refl); lia ].
+    + intros Hnil. destruct acc; discriminate.
+Qed.
+
+Theorem valid_reparse_main ks : valid_kinds ks = true -> accept_kinds ks = ks.
+Proof.
+  intros H. unfold accept_kinds. apply (accept_loop_valid ks [] 0); auto. unfold bound. simpl. lia.
+Qed.
+
+(* ------------------------------------------------------------------ the statement's reading of validity *)
+Definition body_kind (k : kind) : bool :=
+  kind_beq k STYLE_RULE || kind_beq k MEDIA_RULE || kind_beq k PAGE_RULE || kind_beq k FONT_FACE_RULE.
+
+Record ValidOrderStatement (rs : list rule) : Prop := {
+  vo_charset : forall i r, nth_error rs i = Some r -> rkind r = CHARSET_RULE -> i = 0;
+  vo_import_ns : forall i j a b, nth_error rs i = Some a -> nth_error rs j = Some b ->
+                                 rkind a = IMPORT_RULE -> rkind b = NAMESPACE_RULE -> i < j;
+  vo_head_body : forall i j a b, nth_error rs i = Some a -> nth_error rs j = Some b ->
+                                 (rkind a = IMPORT_RULE \/ rkind a = NAMESPACE_RULE) -> body_kind (rkind b) = true -> i < j;
+  vo_media : forall i r c, nth_error rs i = Some r -> rkind r = MEDIA_RULE -> List.In c (rkids r) ->
+                           kin c media_forbidden_insert = false /\ kin c media_forbidden_parse = false;
+  vo_page : forall i r c, nth_error rs i = Some r -> rkind r = PAGE_RULE -> List.In c (rkids r) ->
+                          kin c page_forbidden_insert = false
+}.
+
+Lemma sorted_nth ks : sorted ks = true ->
+  forall i j a b la lb, i < j -> nth_error ks i = Some a -> nth_error ks j = Some b ->
+                        level a = Some la -> level b = Some lb -> la <= lb.
+Proof.
+  induction ks as [|x ks IH]; intros Hs i j a b la lb Hij Ha Hb Hla Hlb.
+  - destruct i; discriminate.
+  - simpl in Hs. apply andb_true_iff in Hs as [Hx Hs]. destruct j as [|j]; [lia|]. simpl in Hb.
+    destruct i as [|i].
+    + simpl in Ha. inversion Ha; subst. rewrite Hla in Hx.
+      unfold ge_all in Hx. rewrite forallb_forall in Hx. specialize (Hx b (nth_error_In _ _ Hb)).
+      rewrite Hlb in Hx. now apply Nat.leb_le in Hx.
+    + simpl in Ha. eapply (IH Hs i j); eauto. lia.
+Qed.
+
+Lemma nth_error_kinds rs i r : nth_error rs i = Some r -> nth_error (kinds rs) i = Some (rkind r).
+Proof. intros H. unfold kinds. now rewrite nth_error_map, H. Qed.
+
+Theorem valid_sheet_statement rs : valid_sheet rs = true -> ValidOrderStatement rs.
+Proof.
+  intros H. apply VS_elim in H as [H1 H2]. unfold valid_kinds in H1. apply andb_true_iff in H1 as [Hn Hs].
+  assert (Hord : forall i j a b la lb, nth_error rs i = Some a -> nth_error rs j = Some b ->
+                   level (rkind a) = Some la -> level (rkind b) = Some lb -> la < lb -> i < j).
+  { intros i j a b la lb Ha Hb Hla Hlb Hlt.
+    destruct (Nat.lt_trichotomy i j) as [|[->|Hji]]; auto.
+    - rewrite Ha in Hb. inversion Hb; subst. rewrite Hla in Hlb. inversion Hlb. lia.
+    - pose proof (sorted_nth _ Hs j i _ _ lb la Hji (nth_error_kinds _ _ _ Hb) (nth_error_kinds _ _ _ Ha) Hlb Hla). lia. }
+  constructor.
+  - intros i r Hi Hk. destruct i as [|i]; auto. exfalso.
+    destruct rs as [|x rs]; [discriminate|]. simpl in Hi, Hn.
+    unfold nocs in Hn. rewrite forallb_forall in Hn.
+    specialize (Hn (rkind r) (in_map rkind _ _ (nth_error_In _ _ Hi))). rewrite Hk in Hn. discriminate.
+  - intros i j a b Ha Hb Hka Hkb. eapply (Hord i j a b 1 2); eauto; [now rewrite Hka | now rewrite Hkb].
+  - intros i j a b Ha Hb Hka Hkb.
+    assert (Hlb : level (rkind b) = Some 4) by (destruct (rkind b); try discriminate; reflexivity).
+    destruct Hka as [Hka|Hka]; [eapply (Hord i j a b 1 4) | eapply (Hord i j a b 2 4)]; eauto; try lia; now rewrite Hka.
+  - intros i r c Hi Hk Hc. pose proof (forallb_nth_error _ _ _ _ H2 Hi) as Hr.
+    unfold kids_ok, is_kind in Hr. rewrite Hk in Hr.
+    replace (kind_beq MEDIA_RULE MEDIA_RULE) with true in Hr by reflexivity. apply negb_true_iff in Hr.
+    unfold anyk in Hr. apply existsb_false_forallb in Hr. rewrite forallb_forall in Hr.
+    specialize (Hr c Hc). apply negb_true_iff in Hr. unfold kin in *. rewrite existsb_app in Hr.
+    now apply orb_false_iff in Hr.
+  - intros i r c Hi Hk Hc. pose proof (forallb_nth_error _ _ _ _ H2 Hi) as Hr.
+    unfold kids_ok, is_kind in Hr. rewrite Hk in Hr.
+    replace (kind_beq PAGE_RULE MEDIA_RULE) with false in Hr by reflexivity.
+    replace (kind_beq PAGE_RULE PAGE_RULE) with true in Hr by reflexivity. apply negb_true_iff in Hr.
+    unfold anyk in Hr. apply existsb_false_forallb in Hr. rewrite forallb_forall in Hr.
+    specialize (Hr c Hc). now apply negb_true_iff in Hr.
+Qed.
+
+(* ------------------------------------------------------------------ corollaries used by props/C07.v *)
+Theorem order_invariant_statement_main rx ops : Forall op_ok ops -> ValidOrderStatement (run rx ops []).
+Proof. intros H. apply valid_sheet_statement. now apply order_invariant_main. Qed.
+
+Theorem step_preserves_main rx rs o : op_ok o -> valid_sheet rs = true -> valid_sheet (fst (step rx rs o)) = true.
+Proof. intros Ho H. now apply step_VS. Qed.
+
+Theorem history_reparse_main rx ops :
+  Forall op_ok ops -> accept_kinds (kinds (run rx ops [])) = kinds (run rx ops []).
+Proof.
+  intros H. apply valid_reparse_main. pose proof (order_invariant_main rx ops H) as Hv.
+  now apply VS_elim in Hv as [Hv _].
+Qed.
+
+(* non-vacuity: a history whose operations are all admissible and that builds a five-rule sheet, passing through
+   the placement that used to fail ([comment, @import] + add(@namespace)) *)
+Definition P (k : kind) : proto := mkProto k 0 0 0 [] [].
+Definition demo_ops : list op :=
+  [ Ins (Text [P COMMENT]) None true;
+    Ins (Text [P IMPORT_RULE]) None true;
+    Ins (Text [mkProto NAMESPACE_RULE 1 1 0 [] []]) None true;
+    Ins (Text [P VARIABLES_RULE]) None true;
+    Ins (Text [mkProto STYLE_RULE 0 0 0 [1%N] []]) (Some 4%Z) false;
+    Ins (Text [P IMPORT_RULE]) (Some 5%Z) false;                 (* rejected: @import after a style rule *)
+    Enc 1;
+    In 9 (CDel 0) ].
+
+Lemma demo_ops_ok : Forall op_ok demo_ops.
+Proof. repeat constructor. Qed.
+
+Lemma demo_run : kinds (run true demo_ops []) =
+  [CHARSET_RULE; COMMENT; IMPORT_RULE; NAMESPACE_RULE; VARIABLES_RULE; STYLE_RULE].
+Proof. vm_compute. reflexivity. Qed.
+
+Lemma demo_rejected :
+  step true (run true (firstn 5 demo_ops) []) (Ins (Text [P IMPORT_RULE]) (Some 5%Z) false)
+  = (run true (firstn 5 demo_ops) [], Exc HierarchyRequestErr).
+Proof. vm_compute. reflexivity. Qed.
+
+Lemma demo_valid_list : valid_kinds [CHARSET_RULE; COMMENT; IMPORT_RULE; UNKNOWN_RULE; NAMESPACE_RULE; VARIABLES_RULE;
+                                     MARGIN_RULE; STYLE_RULE; COMMENT; MEDIA_RULE; PAGE_RULE; FONT_FACE_RULE] = true.
+Proof. reflexivity. Qed.
+
+Lemma demo_invalid_list : accept_kinds [COMMENT; NAMESPACE_RULE; IMPORT_RULE] = [COMMENT; NAMESPACE_RULE].
+Proof. reflexivity. Qed.
